@@ -24,6 +24,7 @@ const (
 	KStringList             // string set
 	KMap                    // nested map
 	KLinks                  // link collection managed through SetLinkedIds
+	KReqString              // non-null, non-empty string written with PersistContext.SetRequiredString
 )
 
 type Field struct {
@@ -104,7 +105,7 @@ func (s *strategy) FillEntity(e *Rec, b *boltz.TypedBucket) {
 
 func (s *strategy) fill(e *Rec, b *boltz.TypedBucket, f Field) {
 	switch f.Kind {
-	case KString:
+	case KString, KReqString:
 		e.F[f.Name] = b.GetStringOrError(f.Name)
 	case KStringP:
 		if v := b.GetString(f.Name); v != nil {
@@ -175,6 +176,9 @@ func persistField(e *Rec, ctx *boltz.PersistContext, f Field) {
 	case KString:
 		sv, _ := v.(string)
 		ctx.SetString(f.Name, sv)
+	case KReqString:
+		sv, _ := v.(string)
+		ctx.SetRequiredString(f.Name, sv)
 	case KStringP:
 		if v == nil {
 			ctx.SetStringP(f.Name, nil)
@@ -321,7 +325,7 @@ func NewStore(spec *Spec) *Store {
 // NodeType maps a field kind to the filter type.
 func NodeType(k Kind) ast.NodeType {
 	switch k {
-	case KString, KStringP:
+	case KString, KStringP, KReqString:
 		return ast.NodeTypeString
 	case KInt64P, KInt32P:
 		return ast.NodeTypeInt64
